@@ -34,6 +34,15 @@ RULE = ("exhaustive small universe (coefficients in {-1,0,1,2}, lb<=3, la<=3) pl
         "several times, equal filters of different coefficient types in both orders, several live streams consumed "
         "interleaved in chunks, non-causal filters inside a history; every history runs in a freshly forked process); "
         "+ cascades (one filter object applied 2-4 times to its own lazy output, a memory per stage: re-entrant use); "
+        "+ coefficient kinds / constructor shapes / call shapes over Q(i) (c04_cx.py, driver entry gcall): every spelling of "
+        "the special-cased values (1, -1, 0 as int, bool, float, Fraction, complex 1+0j / -1+0j / 0j) and their neighbours "
+        "(1j, -1j, unit-modulus 0.6+0.8j, 2j, 10**30) in every position (numerator delay 0..2, denominator delay 1..2, gain), "
+        "random Gaussian-integer / unit-modulus / bool / huge-int / dyadic-complex / Fraction coefficient vectors, numerator and "
+        "denominator given as number, None / omitted, list, dict, OrderedDict, Poly, keywords, z-arithmetic, filter cast, cast "
+        "with a scalar divisor, polynomials assigned to an existing object (a[0] missing / 0 / 0.0 / Fraction(0) / 0j / False: the "
+        "ZeroDivisionError branch), memory and zero omitted / keyword / positional, memory as thub / callable returning a Stream / "
+        "callable object / partial / endless Stream, zero spelled int / bool / float / Fraction / complex, Gaussian-integer / "
+        "dyadic-complex / Fraction / int samples, inputs incl. thub and endless iterators consumed with take(n); "
         "a case is non-trivial when the impl yields at least one sample or raises; distinct = distinct JSON case")
 TRUSTED = [
     "hand-written Lean model ALV/Model/C04.lean of LinearFilter.__init__/__call__ (modelled, not verified: Poly "
@@ -54,12 +63,23 @@ TRUSTED = [
     "history isolation (harness/props/c04_hist.py:_zygote_start): every history runs in a child forked from a zygote with "
     "freshly imported audiolazy, so a failing history fails on pristine library state; a disagreeing single call is run "
     "again in such a child and labelled state-dependent when it agrees there",
+    "coefficient kinds (harness/props/c04_cx.py): complex numbers are sent to Lean at their exact binary value as Gaussian "
+    "rationals; the driver runs the polymorphic model / spec over the executable field Q(i) (ALV.C12.GRat; Field instance "
+    "proved in Lemmas/C12Gauss.lean, the instance executed is covered by gauss_filterCall_eq_specCall); outputs the real code "
+    "computed in int / Fraction types are compared exactly, Gaussian-integer data without a division below 2**52 exactly, "
+    "everything else within a running rounding-error bound computed in exact arithmetic (1-norms, u = 2^-52); the T3 parser "
+    "folds python's printed complex constants ('(1+2j)', '(-0-1j)', '--1j') exactly; modelled, not verified: Poly(number) = "
+    "{0: number}, Poly(None) = {}, ZFilter(filt, c) multiplies the numerator by 1/c (1/0 raises at construction); an endless "
+    "input is observed through a counting iterator (pulled items = outputs taken: one_output_per_input + prefix_causal)",
     "long cases: the Lean driver does not execute the generated loop statement by statement (O(order^2) per sample) "
     "but answers with specCall, equal to the model by theorem filterCall_eq_specCall; the generated source of every "
     "long case is still compared structurally (T3)",
 ]
 ASSUMPTIONS = [
     "constant (non-Stream) coefficients with integer powers; time-varying coefficients are C06",
+    "coefficients, samples, memory items and zero values are numbers of a field: int (any size), bool, Fraction, float, "
+    "complex; a tuple given where a list is expected, Decimal and numpy scalars are outside (Poly treats a tuple as ONE "
+    "coefficient)",
     "numbers are modelled as elements of a field (exact rationals in the driver); where the impl itself injects "
     "binary floats (Fraction coefficients formatted as 'p/q' into the exec'd source, int/int true division, float "
     "coefficients, a non-integer zero value of the all-zero filter) outputs are compared within a computed "
@@ -72,11 +92,15 @@ ASSUMPTIONS = [
 ]
 MANIFEST = {
     "technique": "Lean 4 refinement proof (generated loop IR = bounded shifting state machine = difference "
-                 "equation over unbounded histories = the indexed sentence of the property, any field, all "
+                 "equation over unbounded histories = the indexed sentence of the property, any field incl. the "
+                 "executable Gaussian rationals Q(i) for complex coefficients, all "
                  "lengths; constructor arguments to outputs end to end; histories of lazily consumed streams over a "
                  "heap of caller objects) + translator tie T3 (captured source vs Lean compile, structural) + exact "
                  "I/O differential (single calls, long orders / inputs, histories in isolated processes)",
-    "note": "35 theorems, no pending statement; D4 (Fraction gain formatted as '(expr) / p/q') fixed in /repo "
+    "note": "47 theorems, no pending statement; round 3: special cases of the string building proved neutral for every field "
+            "element (special_cases_neutral, term_value, unit_test_sound_iff), executable Q(i) instance tied to the real "
+            "code with complex coefficients (gcall), call / constructor shapes with defaults (filterCallD_eq_specCallD), "
+            "a[0] == 0 branch (callRaw_eq_specCallRaw); D4 (Fraction gain formatted as '(expr) / p/q') fixed in /repo "
             "(2433df9), proposed_fixes/D4-fraction-gain.diff",
 }
 
@@ -1385,7 +1409,37 @@ _SELFTEST_EDITS = [
 ]
 
 
+_SELFTEST_CX_SRC = """def gen(seq, memory, zero):
+  m1 , = memory
+  d1 = d2 = d3 = zero
+  for d0 in seq:
+    m0 = (1j * d0 + (-0-1j) * d1 + (0.5+0.25j) * d2 + 1000000000000000000000000000001 * d3 + --1j * m1) / ((1+2j))
+    yield m0
+    m1 = m0
+    d3 = d2
+    d2 = d1
+    d1 = d0"""
+_SELFTEST_CX_IR = {"kind": "loop", "nm": 1, "nd": 3,
+                   "sum": [["mul", [0, 1], "d", 0], ["mul", [0, -1], "d", 1], ["mul", ["1/2", "1/4"], "d", 2],
+                           ["mul", 10 ** 30 + 1, "d", 3], ["mul", [0, 1], "m", 1]],
+                   "gain": ["div", [1, 2]],
+                   "shifts": [["m", 1, "m", 0], ["d", 3, "d", 2], ["d", 2, "d", 1], ["d", 1, "d", 0]]}
+_SELFTEST_CX_EDITS = [
+    ("1j * d0", "-d0"), ("1j * d0", "d0"), ("1j * d0", "1 * d0"), ("1j * d0", "-1j * d0"), ("(-0-1j)", "(-0+1j)"), ("(-0-1j)", "-1"),
+    ("--1j", "-1j"), ("((1+2j))", "((1-2j))"), ("((1+2j))", "(1)"), ("0.25j", "0.5j"), ("0000001 * d3", "0000000 * d3"),
+    ("1000000000000000000000000000001", "1e30"),
+]
+
+
 def extra_checks(eng):
+    ok = parse_source(_SELFTEST_CX_SRC) == _SELFTEST_CX_IR
+    yield ("T3-parser-reference-source-complex", ok, "parse_source gave %r" % (parse_source(_SELFTEST_CX_SRC),))
+    blind = []
+    for old, new in _SELFTEST_CX_EDITS:
+        assert old in _SELFTEST_CX_SRC
+        if parse_source(_SELFTEST_CX_SRC.replace(old, new, 1)) == _SELFTEST_CX_IR:
+            blind.append((old, new))
+    yield ("T3-parser-sees-seeded-edits-complex(%d)" % len(_SELFTEST_CX_EDITS), not blind, "edits not seen: %r" % (blind,))
     ok = parse_source(_SELFTEST_SRC) == _SELFTEST_IR
     yield ("T3-parser-reference-source", ok, "parse_source gave %r" % (parse_source(_SELFTEST_SRC),))
     blind = []
